@@ -3,6 +3,7 @@ package harness
 import (
 	"strconv"
 	"strings"
+	"unicode/utf8"
 
 	at "github.com/DanielSvub/anytype"
 	"pgregory.net/rapid"
@@ -20,10 +21,13 @@ type C10Case struct {
 	Muts []CloneMut `json:"muts,omitempty"`
 	// Derived > 0: every Derived-th nested container is a user-defined derived type
 	Derived int `json:"derived,omitempty"`
+	// Latin1: keys and path are re-encoded at check time so that U+0080..U+00FF become single bytes
+	// (keys that are not valid UTF-8); the JSON of the case keeps the readable spelling
+	Latin1 bool `json:"latin1,omitempty"`
 }
 
 // tfKeys: non-empty, sigil-free keys (the only keys tree form can address).
-var tfKeys = []string{"a", "b", "k", "x", "key", "é", "a b", "0", "1", "-1", "A", "kk"}
+var tfKeys = []string{"a", "b", "k", "x", "key", "é", "a b", "0", "1", "-1", "A", "kk", "C:\\", "\\", "a\\b", "ÿ", "café"}
 
 func tfKeyGen(t *rapid.T) string { return tfKeys[drawIdx(t, len(tfKeys), "tfkey")] }
 
@@ -282,6 +286,7 @@ func GenC10(t *rapid.T) *C10Case {
 	if oneIn(t, 5, "derived") {
 		c.Derived = drawInt(t, 1, 3, "every")
 	}
+	c.Latin1 = oneIn(t, 5, "latin1")
 	if oneIn(t, 3, "rereads") {
 		ops := []string{"add", "insert", "replace", "delete", "pop", "clear", "reverse", "set", "unset", "oclear", "noop", "rekey", "clearrefill"}
 		for i, n := 0, drawInt(t, 1, 3, "nmuts"); i < n; i++ {
@@ -300,6 +305,15 @@ func genC10(t *rapid.T) *C10Case {
 		cfg.KeyGen = func(t *rapid.T) string {
 			if oneIn(t, 4, "dk") {
 				return []string{"", "a.b", "#1", ".a", "a#0"}[drawInt(t, 0, 4, "dkk")]
+			}
+			return tfKeyGen(t)
+		}
+	} else if class != 0 {
+		// the empty key is legal in an object but not addressable: a path with an empty segment must
+		// stay unresolved even when the object it is applied to owns the key ""
+		cfg.KeyGen = func(t *rapid.T) string {
+			if oneIn(t, 6, "emptykey") {
+				return ""
 			}
 			return tfKeyGen(t)
 		}
@@ -401,6 +415,20 @@ func typeOfAny(x any) at.Type {
 func CheckC10(c *C10Case, st *Stats) error {
 	if c.Root.K != KList && c.Root.K != KObject {
 		return nil
+	}
+	if c.Latin1 {
+		if r, ok := c.Root.Latin1Keys(); ok {
+			cc := *c
+			cc.Root, cc.Path = r, latin1(c.Path)
+			cc.Muts = append([]CloneMut{}, c.Muts...)
+			for i := range cc.Muts {
+				cc.Muts[i].Key = latin1(cc.Muts[i].Key)
+			}
+			c = &cc
+			if !utf8.ValidString(c.Path) {
+				st.Count("path_with_invalid_utf8_key")
+			}
+		}
 	}
 	root := BuildVariant(c.Root, c.Build)
 	if c.Derived > 0 {
@@ -504,6 +532,6 @@ func c10Read(root any, c *C10Case, st *Stats, when string) (tfOutcome, error) {
 
 func init() {
 	Register("C10",
-		"trees with non-empty sigil-free keys (incl. numeric-looking keys, non-ASCII, spaces; long lists of 60-130 elements addressed near the end; chains of up to 70 levels walked with up to 80 segments; drawn construction routes) x paths from three classes: resolvable random walks (optionally in trees that also hold unaddressable distractor keys \"\", \"a.b\", \"#1\"), one-step corruptions of a resolvable path (15 kinds: segment dropped, sigil swapped, index = n, index > n, negative, key misspelt, trailing sigil, leading sigil removed/wrong/doubled, empty segment, non-numeric index, 21-digit index, one more segment past the end, non-canonical index spelling) and arbitrary strings over the path alphabet. Oracle: a resolver in the harness walks the implementation tree with Get/TypeOf/KeyExists/Count one segment at a time; resolvable => GetTF identical/equal and TypeOfTF = its kind; otherwise TypeOfTF = Undefined without panic and GetTF panics; index spellings outside canonical decimal that a base-0 parser accepts are only checked for panic-freedom; tree unchanged (content and identities). Non-trivial = resolved path with >= 2 segments using both sigils, or any corruption class. Distinct = distinct FNV-64a hash of the case JSON.",
+		"trees with non-empty sigil-free keys (incl. numeric-looking keys, non-ASCII, spaces, keys with or ending in a backslash, and in one case of five keys re-encoded to bytes that are not valid UTF-8; with corrupted and arbitrary paths one key in six is the empty key, which no path may reach; long lists of 60-130 elements addressed near the end; chains of up to 70 levels walked with up to 80 segments; drawn construction routes) x paths from three classes: resolvable random walks (optionally in trees that also hold unaddressable distractor keys \"\", \"a.b\", \"#1\"), one-step corruptions of a resolvable path (15 kinds: segment dropped, sigil swapped, index = n, index > n, negative, key misspelt, trailing sigil, leading sigil removed/wrong/doubled, empty segment, non-numeric index, 21-digit index, one more segment past the end, non-canonical index spelling) and arbitrary strings over the path alphabet. Oracle: a resolver in the harness walks the implementation tree with Get/TypeOf/KeyExists/Count one segment at a time; resolvable => GetTF identical/equal and TypeOfTF = its kind; otherwise TypeOfTF = Undefined without panic and GetTF panics; index spellings outside canonical decimal that a base-0 parser accepts are only checked for panic-freedom; tree unchanged (content and identities). Non-trivial = resolved path with >= 2 segments using both sigils, or any corruption class. Distinct = distinct FNV-64a hash of the case JSON.",
 		GenC10, CheckC10)
 }
